@@ -194,8 +194,11 @@ def run_check(pid, tier, seed, PROPS, verbose=False):
         level = 'other'
     ev = evidence(pid, tier, seed, level, cfg, eng, results, R, bounded, known_hits, undecided, violations, sel,
                   t_sym, t_solve, time.time() - t0, repo)
-    os.makedirs(os.path.join(VERIF, 'evidence'), exist_ok=True)
-    json.dump(ev, open(os.path.join(VERIF, 'evidence', pid + '.json'), 'w'), indent=1)
+    # evidence is only written for the real tree; runs against scratch copies (mutants) go to a scratch directory
+    evdir = os.path.join(VERIF, 'evidence') if os.environ.get('VERIF_REPO', '/repo') == '/repo' \
+        else os.path.join(VERIF, 'evidence', '_scratch')
+    os.makedirs(evdir, exist_ok=True)
+    json.dump(ev, open(os.path.join(evdir, pid + '.json'), 'w'), indent=1)
     print('# %s: %d obligations, %d discharged, %d refuted, %d undecided, %d functions out of reach; bounded: %s; %.1fs'
           % (pid, n_obl, n_dis, len(R['p_failed']) + len(R['a_failed']), len(R['unknown']), len(out_of_reach),
              ', '.join('%s=%d cases' % (b['name'], b['evaluations']) for b in bounded) or 'none', time.time() - t0))
